@@ -3,7 +3,7 @@ import impl
 
 # the last five: an operator word glued to the rest by a key character, numbers written in two ways
 WORDS = ['a', 'b', 'c', 'gpl', '2.0', 'mit', 'gnu', 'later', 'x', 'v2', '+', 'lgpl-2.1', 'bsd', 'foo',
-         'or-later', 'with:x', 'and+', 'gpl-10', 'gpl-02', 'LicenseRef-acme-1.0', 'file', 'acme-inc.']
+         'or-later', 'with:x', 'and+', 'gpl-10', 'gpl-02', 'LicenseRef-acme-1.0', 'file', 'acme-inc.', 'AdditionRef-acme']
 OPWORDS = ['and', 'or', 'with']
 # the last two: letters that str.lower() leaves alone and casefold() / NFKC do not (fi ligature, final sigma)
 ODDWORDS = ['\u0130x', '\u01c5', 'Stra\xdfe', '\xc9t\xe9', '\u03a9m', '\ufb01le', '\u03bf\u03c2']
